@@ -165,6 +165,43 @@ example : passes (cfgT .storage false)
     = [some true, none, some true, none, some true, none, some false, some false, some true, some false] := by
   decide +kernel
 
+/-- **Cookie and presented token must be the same byte string.** An unsafe request (not exempted by
+    `Next`) none of whose values presented through the configured extractor equals the CSRF cookie —
+    equality of byte strings: same length, same bytes; a proper prefix or an extension of the cookie,
+    of whatever length, or a value against no cookie at all, is a mismatch — does not reach the
+    handler, however live the presented token is. -/
+theorem cookie_token_mismatch_rejected (raw : List Bytes) (cfg : Cfg)
+    (hbuild : buildLoop raw [] [] = some (cfg.origins, cfg.subs)) (hidle : 0 < cfg.idle)
+    (gen sgen : Nat → Bytes) (hgen : GenOK cfg gen sgen) (ops : List Op)
+    (q : Req) (hnext : skipped cfg q = false) (hunsafe : isSafe q.method = false)
+    (hmis : ∀ t ∈ presented cfg.ext q, t ≠ q.ck) :
+    (handle cfg gen sgen (after cfg gen sgen ops) q).2.pass = false := by
+  cases hp : (handle cfg gen sgen (after cfg gen sgen ops) q).2.pass
+  · rfl
+  · obtain ⟨_, _, ⟨t, h1, _, h3, _⟩, _⟩ :=
+      unsafe_pass_requires_live_token raw cfg hbuild hidle gen sgen hgen ops q hnext hunsafe hp
+    exact absurd h3 (hmis t h1)
+
+/-- a generator of 256-byte keys: `t<n>` followed by 254 `x` -/
+def genL (n : Nat) : Bytes := genT n ++ List.replicate 254 120
+
+/-- non-vacuity: a live token against a cookie that is the token followed by 256 (or 512, 255) more
+    bytes, against a proper prefix of it, and — with 256-byte tokens — against no cookie at all: all
+    refused; the token with its own cookie passes -/
+example : passes (cfgT .storage false)
+    [.req (get [] []),
+     .req (post (genT 0 ++ List.replicate 256 120) [] (genT 0)),
+     .req (post (genT 0 ++ List.replicate 512 120) [] (genT 0)),
+     .req (post (genT 0 ++ List.replicate 255 120) [] (genT 0)),
+     .req (post (genT 0) [] (genT 0 ++ List.replicate 256 120)),
+     .req (post [116] [] (genT 0)),
+     .req (post (genT 0) [] (genT 0))]
+    = [some true, some false, some false, some false, some false, some false, some true] ∧
+    (genL 0).length = 256 ∧
+    (run (cfgT .storage false) genL sgenT {}
+      [.req (get [] []), .req (post [] [] (genL 0)), .req (post (genL 0) [] (genL 0))]).2.map (·.map (·.pass))
+    = [some true, some false, some true] := by decide +kernel
+
 /-- **If the token store fails the request is rejected**: an unsafe request during which a storage
     call failed before the handler could be entered does not reach it. -/
 theorem store_failure_rejects (raw : List Bytes) (cfg : Cfg)
